@@ -290,6 +290,13 @@ var c10CLICmds = []struct {
 	{[]string{"lint", "@LOG@", "@BOOK@"}, true, false, false},
 	{[]string{"lint", "@BOOK@", "@LOG@"}, false, true, false},
 	{[]string{"summary", "2021/01/01", "2030/05/05"}, true, true, false},
+	{[]string{"summary", "today"}, true, true, true},
+	{[]string{"summary", "2021/01/09"}, true, true, true},
+	// an element or food nothing mentions: the files must still be read
+	{[]string{"reg", "-g", "-s", "absent~element"}, true, true, true},
+	{[]string{"bal", "-s", "absent~element"}, true, true, true},
+	{[]string{"reg", "-f", "absent~food"}, true, true, true},
+	{[]string{"report", "element-total", "absent~element"}, false, true, true},
 	// a period that holds no record: both files must still be read completely
 	{[]string{"reg", "-b", "2031/01/01"}, true, true, true},
 	{[]string{"bal", "-e", "1999/01/01"}, true, true, true},
@@ -299,7 +306,7 @@ var c10CLICmds = []struct {
 
 var c10Shapes = []string{"dir", "long-entry", "long-comment", "long-note", "long-heading"}
 var c10Sizes = []int{64 * 1024, 64*1024 + 1, 70 * 1024, 200 * 1024}
-var c10Positions = []string{"first", "middle", "last"}
+var c10Positions = []string{"first", "middle", "last", "first-then-big"}
 
 type c10CLICase struct {
 	Cmd   int    `json:"cmd"`
@@ -342,6 +349,19 @@ func c10LongFile(isLog bool, shape string, size int, pos string) string {
 		return rec[:i] + long + rec[i:]
 	}
 	switch pos {
+	case "first-then-big":
+		// the long line at the very beginning, then several hundred KiB of ordinary records: a reader that skips ahead
+		// (to the tail of a big file, say) must still notice what it skipped
+		recs[0] = ins(recs[0])
+		var sb strings.Builder
+		for i := 0; sb.Len() < 400*1024; i++ {
+			if isLog {
+				fmt.Fprintf(&sb, "%s:\n  meal: 1\n  snack%d: 2\n", vFmtDay(10+i%3000, ""), i%7)
+			} else {
+				fmt.Fprintf(&sb, "filler%d:\n  x: %d\n  y: 2\n", i, i%9+1)
+			}
+		}
+		recs = append(recs, sb.String())
 	case "first":
 		recs[0] = ins(recs[0])
 	case "middle":
@@ -634,8 +654,8 @@ func c10CLISpace() []c10CLICase {
 			if onLog && cm.book {
 				out = append(out, c10CLICase{Cmd: ci, OnLog: onLog, Shape: "same-file"})
 			}
-			for _, sz := range []int{1<<20 + 300000, 5 << 20} {
-				if !vThorough() && (sz > 2<<20 || ci%3 != 0) { // quick: 1.3 MB for every third command
+			for _, sz := range []int{1<<20 + 300000, 5 << 20, 33<<20 + 700000} {
+				if !vThorough() && ((sz > 2<<20 && sz < 30<<20) || ci%3 != 0 || (sz > 30<<20 && ci%6 != 0)) { // quick: 1.3 MB for every third command, 34 MB for every sixth
 					continue
 				}
 				out = append(out, c10CLICase{Cmd: ci, OnLog: onLog, Shape: "big-file", Size: sz})
